@@ -274,13 +274,15 @@ class _BoostZMatrixImplementation(NumPyPrintable):
 
     def _numpycode(self, printer: NumPyPrinter, *args) -> str:
         printer.module_imports[printer._module].add("array")
-        _, gamma, gamma_beta, ones, zeros = map(printer._print, self.args)
+        _, gamma, _, ones, zeros = map(printer._print, self.args)
+        # print the negation with the printer (operator precedence for sums)
+        minus_gamma_beta = printer._print(-self.gamma_beta)
         return f"""array(
             [
-                [{gamma}, {zeros}, {zeros}, -{gamma_beta}],
+                [{gamma}, {zeros}, {zeros}, {minus_gamma_beta}],
                 [{zeros}, {ones}, {zeros}, {zeros}],
                 [{zeros}, {zeros}, {ones}, {zeros}],
-                [-{gamma_beta}, {zeros}, {zeros}, {gamma}],
+                [{minus_gamma_beta}, {zeros}, {zeros}, {gamma}],
             ]
         ).transpose((2, 0, 1))"""
 
@@ -422,12 +424,14 @@ class _RotationYMatrixImplementation(NumPyPrintable):
     def _numpycode(self, printer: NumPyPrinter, *args) -> str:
         printer.module_imports[printer._module].add("array")
         _, cos_angle, sin_angle, ones, zeros = map(printer._print, self.args)
+        # print the negation with the printer (operator precedence for sums)
+        minus_sin_angle = printer._print(-self.sin_angle)
         return f"""array(
             [
                 [{ones}, {zeros}, {zeros}, {zeros}],
                 [{zeros}, {cos_angle}, {zeros}, {sin_angle}],
                 [{zeros}, {zeros}, {ones}, {zeros}],
-                [{zeros}, -{sin_angle}, {zeros}, {cos_angle}],
+                [{zeros}, {minus_sin_angle}, {zeros}, {cos_angle}],
             ]
         ).transpose((2, 0, 1))"""
 
@@ -479,10 +483,12 @@ class _RotationZMatrixImplementation(NumPyPrintable):
     def _numpycode(self, printer: NumPyPrinter, *args) -> str:
         printer.module_imports[printer._module].add("array")
         _, cos_angle, sin_angle, ones, zeros = map(printer._print, self.args)
+        # print the negation with the printer (operator precedence for sums)
+        minus_sin_angle = printer._print(-self.sin_angle)
         return f"""array(
             [
                 [{ones}, {zeros}, {zeros}, {zeros}],
-                [{zeros}, {cos_angle}, -{sin_angle}, {zeros}],
+                [{zeros}, {cos_angle}, {minus_sin_angle}, {zeros}],
                 [{zeros}, {sin_angle}, {cos_angle}, {zeros}],
                 [{zeros}, {zeros}, {zeros}, {ones}],
             ]
